@@ -50,6 +50,41 @@ func spareCap(v reflect.Value) {
 	}
 }
 
+// emptiedWithCap replaces every nil or empty slice reachable from v by an empty one that still owns a backing array
+// (the shape left by `list = list[:0]` or `make([]T, 0, n)`): a copy that hands such a slice over as it is shares
+// the array, and two appends then overwrite one another.
+func emptiedWithCap(v reflect.Value) {
+	switch v.Kind() {
+	case reflect.Ptr:
+		if !v.IsNil() {
+			emptiedWithCap(v.Elem())
+		}
+	case reflect.Struct:
+		for i := 0; i < v.NumField(); i++ {
+			if v.Type().Field(i).IsExported() {
+				emptiedWithCap(v.Field(i))
+			}
+		}
+	case reflect.Slice:
+		if !v.CanSet() {
+			return
+		}
+		if v.Len() == 0 {
+			v.Set(reflect.MakeSlice(v.Type(), 0, 3))
+			return
+		}
+		for i := 0; i < v.Len(); i++ {
+			emptiedWithCap(v.Index(i))
+		}
+	case reflect.Map:
+		for _, k := range v.MapKeys() {
+			if e := v.MapIndex(k); e.Kind() == reflect.Ptr {
+				emptiedWithCap(e)
+			}
+		}
+	}
+}
+
 // emptyNonNil replaces every nil slice and map reachable from v by an empty non-nil one (the shape the
 // constructors NewNode / NewNodeList / NewDocument produce); the content is unchanged.
 func emptyNonNil(v reflect.Value) {
@@ -165,9 +200,13 @@ func c12CopyProperty(t *rapid.T) {
 	if rapid.IntRange(0, 2).Draw(t, "sharePtr") == 0 && sharePersonPointers(personLists(src)...) {
 		hx.Class("person_pointer_reachable_twice")
 	}
-	if rapid.IntRange(0, 2).Draw(t, "emptyNonNil") == 0 {
+	switch rapid.IntRange(0, 5).Draw(t, "emptyNonNil") {
+	case 0, 1:
 		emptyNonNil(reflect.ValueOf(src))
 		hx.Class("empty_non-nil_collections")
+	case 2, 3:
+		emptiedWithCap(reflect.ValueOf(src))
+		hx.Class("empty_collections_with_spare_capacity")
 	}
 	name := string(src.ProtoReflect().Descriptor().Name())
 	m := reflect.ValueOf(src).MethodByName("Copy")
@@ -216,6 +255,10 @@ func c12Operand(t *rapid.T, label string) *sbom.NodeList {
 	nl := hx.GenNodeList(t, label, hx.GraphOpts{WellFormed: rapid.IntRange(0, 3).Draw(t, label+".wf") > 0, NodeGen: c11Node, MaxEdges: 5})
 	if rapid.Bool().Draw(t, label+".sparecap") {
 		spareCap(reflect.ValueOf(nl))
+	}
+	if rapid.IntRange(0, 2).Draw(t, label+".emptiedcap") == 0 {
+		emptiedWithCap(reflect.ValueOf(nl))
+		hx.Class("empty_collections_with_spare_capacity")
 	}
 	if rapid.IntRange(0, 2).Draw(t, label+".sharePtr") == 0 && sharePersonPointers(personLists(nl)...) {
 		hx.Class("person_pointer_reachable_twice")
